@@ -138,6 +138,28 @@ def rw_for_by_ref(text):
     return text, count
 
 
+def rw_for_iter(text, nth):
+    """R5: the nth `for PAT in EXPR { B }` (EXPR a crate-defined iterator) ->
+    `let mut verif_it = EXPR; loop { match verif_it.next() { Some(PAT) => { B } None => break } }`  (reference desugaring of `for`)"""
+    rx = re.compile(r'\bfor\s+(.+?)\s+in\s+([^{\n]+?)\s*\{')
+    pos = 0
+    m = None
+    for _ in range(nth):
+        m = rx.search(text, pos)
+        if not m:
+            return text, 0
+        pos = m.end()
+    d, j = 1, m.end()
+    while j < len(text) and d:
+        if text[j] == '{':
+            d += 1
+        elif text[j] == '}':
+            d -= 1
+        j += 1
+    head = 'let mut verif_it = %s; loop { match verif_it.next() { Some(%s) => {' % (m.group(2).strip(), m.group(1))
+    return text[:m.start()] + head + text[m.end():j] + ' None => break } }' + text[j:], 1
+
+
 def rw_underscore_params(sig):
     """R3: parameter pattern `_: T` -> `_pN: T`"""
     n = [0]
@@ -153,7 +175,7 @@ REWRITES_DOC = {
     'R3': 'parameter pattern `_: T` -> `_pN: T` (Verus rejects `_` patterns)',
     'R7': 'generic parameter instantiated at the one type the unit models: `T: Index<usize, Output = u64>` of bits::read_int/write_int at Vec<u64>; `P: AsRef<Path>` at the model path type',
     'R10': 'alpha-renaming of the method-level generic parameter of the Serialize methods (T -> W, the name SelectSupport already uses): this Verus matches trait and impl method generics by name',
-    'R5': '`for p in X.by_ref() { B }` -> `loop { match X.next() { Some(p) => { B } None => break } }`: the reference desugaring of `for` (IntoIterator::into_iter is the identity on iterators), with `Iterator::by_ref` = `self` and `<&mut I as Iterator>::next` = `(**self).next()` (std source)',
+    'R5': '`for p in E { B }` over a crate-defined iterator -> `let mut verif_it = E; loop { match verif_it.next() { Some(p) => { B } None => break } }`: the reference desugaring of `for` (IntoIterator::into_iter is the identity on iterators); for `E = X.by_ref()` the temporary is elided (`Iterator::by_ref` = `self`, `<&mut I as Iterator>::next` = `(**self).next()`, std source)',
     'R8': 'struct fields widened to pub inside the unit',
     'R1': 'doc comments / #[inline] / derives dropped',
 }
@@ -291,6 +313,12 @@ def weave_fn(src, container, name, nth, opts, subs, mode, sig_only=False):
     text, k = rw_get_unchecked(raw)
     if k:
         rewrites['R2'] = k
+    for kind, arg, lines in subs:
+        if kind == 'desugar_for':
+            text, k = rw_for_iter(text, int(arg.strip() or '1'))
+            if not k:
+                raise Undecided('anchor lost: no `for` loop #%s in %s::%s' % (arg, container, name))
+            rewrites['R5'] = rewrites.get('R5', 0) + k
     if any(kind == 'desugar_by_ref' for kind, arg, lines in subs):
         text, k = rw_for_by_ref(text)
         if not k:
@@ -358,7 +386,7 @@ def weave_fn(src, container, name, nth, opts, subs, mode, sig_only=False):
     # collect sub-directives
     for kind, arg, lines in subs:
         body_text = '\n'.join(lines)
-        if kind in ('inst', 'rename_generic', 'desugar_by_ref'):
+        if kind in ('inst', 'rename_generic', 'desugar_by_ref', 'desugar_for'):
             continue
         if kind == 'attr':
             if not sig_only:
@@ -399,7 +427,7 @@ def weave_fn(src, container, name, nth, opts, subs, mode, sig_only=False):
                     last = cpos
                     break
             b.add(last + 1, '\n' + body_text + '\n')
-        elif kind in ('loop', 'loopbody', 'loopend', 'loopafter', 'desugar_for'):
+        elif kind in ('loop', 'loopbody', 'loopend', 'loopafter'):
             parts = arg.split()
             kk = int(parts[0])
             loops = b.loops()
@@ -420,8 +448,6 @@ def weave_fn(src, container, name, nth, opts, subs, mode, sig_only=False):
                 b.add(lc, body_text + '\n')
             elif kind == 'loopafter':
                 b.add(lc + 1, '\n' + body_text + '\n')
-            else:
-                raise Undecided('desugar_for not implemented')
         elif kind in ('before', 'after'):
             m = re.match(r'\s*"((?:[^"\\]|\\.)*)"\s*(?:#(\d+))?\s*$', arg)
             if not m:
